@@ -301,7 +301,9 @@ def run(pid, cfg, seed, tier, workdir, log, harness, driver, replay_lines=None):
     nested_done = {}
     for hi, (keys, steps, src) in enumerate(histories):
         wdir = os.path.join(workdir, "h%d" % hi)
-        bg = (mode == "bg") or (wcfg.get("bg_share", 0) > 0 and src == "gen" and rng.random() < wcfg.get("bg_share", 0))
+        if mode == "shutdown" and (not steps or steps[-1] != "X"):
+            steps = steps + ["X"]
+        bg = (mode in ("bg", "shutdown")) or (wcfg.get("bg_share", 0) > 0 and src == "gen" and rng.random() < wcfg.get("bg_share", 0))
         res, err = run_workload(harness, steps, "bg" if bg else "sync", wdir, log)
         if err:
             cases.append(dict(op="walhist %s" % " ".join(steps), impl="harness:" + err, model="-", spec=None, hyps=[], tags=src))
@@ -324,6 +326,9 @@ def run(pid, cfg, seed, tier, workdir, log, harness, driver, replay_lines=None):
         pos = positions(ops, steps, root)
         if bg:
             pos = [(k, a, "*") for (k, a, jj) in pos]
+        if mode == "shutdown":
+            # graceful shutdown: only the final state matters (restart twice on it)
+            pos = [(len(ops), len(steps), "0")]
         ks = list(range(len(pos)))
         if sample and len(ks) > sample:
             # always keep the points around every ack and fsync, sample the rest
@@ -342,7 +347,7 @@ def run(pid, cfg, seed, tier, workdir, log, harness, driver, replay_lines=None):
         applied = 0
         for idx in ks:
             k, a, jj = pos[idx]
-            if mode in ("crash", "twice", "nested", "bg"):
+            if mode in ("crash", "twice", "nested", "bg", "shutdown"):
                 while applied < k:
                     if ops[applied]["kind"] not in ("ack", "fsync", "sync"):
                         img.apply(ops[applied])
@@ -370,7 +375,7 @@ def run(pid, cfg, seed, tier, workdir, log, harness, driver, replay_lines=None):
                         d2 = os.path.join(workdir, "img2-%d-%d-%s" % (hi, k, tg2.split("k2=")[1].split("/")[0]))
                         futs.append((line, tg2, pool.submit(restart_image, harness, img2, d2, keys, True)))
                     continue
-                futs.append((line, tagl, pool.submit(restart_image, harness, snap, dest, keys, mode == "twice")))
+                futs.append((line, tagl, pool.submit(restart_image, harness, snap, dest, keys, mode in ("twice", "shutdown"))))
         shutil.rmtree(wdir, ignore_errors=True)
     # model side, one driver run
     lines = [l for l, _, _ in trace_lines] + [l for l, _, _ in futs]
@@ -387,7 +392,7 @@ def run(pid, cfg, seed, tier, workdir, log, harness, driver, replay_lines=None):
         out = fut.result()
         d = parse_model_line(model[mi]); mi += 1
         m = d["M"]
-        if mode in ("twice", "nested"):
+        if mode in ("twice", "nested", "shutdown"):
             # both restarts must print the same as a single one
             parts = out.split(" startup=")
             if len(parts) == 2 and ("startup=" + parts[1]) == parts[0]:
